@@ -2,22 +2,7 @@
 """Regenerates /verif/MANIFEST.json from the table below (kept in one place so it stays valid)."""
 import json, os
 HERE = os.path.dirname(os.path.dirname(os.path.abspath(__file__)))
-CHECKS = {
- "C10": dict(tech="Hypothesis-generated (grammar, string) cases, differential against an independent fixpoint chart recogniser and tree validator",
-             text="Generated-input search: random acyclic grammars (epsilon, ambiguity, left/right recursion, multi-char terminals) and strings (yields, single-edit mutants, random) are parsed by EarleyParser and ISLaSolver.parse/check and compared with an independent recogniser and tree validator. Held on everything generated; no proof of absence.",
-             note="Trusts the harness' naive span-fixpoint recogniser (self-tested against brute-force enumeration at start-up); strings up to length 10; grammars up to 6 nonterminals.",
-             ref="DESIGN.md section 2, C10"),
-}
-CHECKS["C04"] = dict(
- tech="Hypothesis-generated trees; per tree exhaustive enumeration of all ordered node pairs, nth indices and level operators; oracle = pre-order interval arithmetic",
- text="Generated-input search over trees (random grammars incl. wide alternatives up to 40 children, zoo grammars); for every tree ALL ordered node pairs are judged for all nine standard structural predicates through the registered predicate objects and (sampled) end-to-end through evaluate(). Held on everything generated except the listed known finding; no proof of absence.",
- note="Trusts the interval oracle (self-tested against the specification's recursive isBefore). consecutive/nth/level are judged strictly only on the sub-domain where the documentation is unambiguous; implications on the rest.",
- ref="DESIGN.md section 2, C04")
-CHECKS["C11"] = dict(
- tech="Hypothesis-generated grammars with arbitrary terminal strings; round trip unparse_grammar/parse_bnf compared by identity and by bounded language equality with the harness' own enumerator/recogniser",
- text="Generated-input search over dictionary grammars whose terminals contain control characters, quotes, backslashes, escape look-alikes, non-ASCII, '<' and '>' and empty alternatives: parse_bnf(unparse_grammar(g)) must not raise, must equal g when no terminal contains '<', and must have the same language (all strings up to length 6, both directions) from every nonterminal of g. Held on everything generated; no proof of absence.",
- note="Language equality is bounded (length <= 6, capped enumeration); nonterminal names restricted to those both lexers accept.",
- ref="DESIGN.md section 2, C11")
+CHECKS = json.load(open(os.path.join(HERE, "tools", "checks.json")))
 NOT_YET = {}
 props = [json.loads(l) for l in open(os.path.join(HERE, "properties.jsonl"))]
 checks = []
